@@ -117,6 +117,8 @@ type Spec struct {
 	// scope
 	Root    string  `json:"root,omitempty"`
 	Objects []*Spec `json:"objects,omitempty"`
+	// Typed: a list / map of scalars built with the typed constructor (NewTypedListSchema[T], NewTypedMapSchema[K, V])
+	Typed bool `json:"typed,omitempty"`
 	// one-of
 	Discriminator string   `json:"discriminator,omitempty"`
 	Inlined       bool     `json:"inlined,omitempty"`
@@ -360,8 +362,18 @@ func build(s *Spec) schema.Type {
 		}
 		return schema.NewIntEnumSchema(m, buildUnits(s.Units))
 	case KList:
+		if s.Typed {
+			if t := buildTypedList(s); t != nil {
+				return t
+			}
+		}
 		return schema.NewListSchema(build(s.Items), s.Min, s.Max)
 	case KMap:
+		if s.Typed {
+			if t := buildTypedMap(s); t != nil {
+				return t
+			}
+		}
 		return schema.NewMapSchema(build(s.Keys), build(s.Values), s.Min, s.Max)
 	case KAny:
 		return schema.NewAnySchema()
@@ -385,6 +397,58 @@ func build(s *Spec) schema.Type {
 		return schema.NewOneOfIntSchema[any](types, s.Discriminator, s.Inlined)
 	}
 	panic(BuildError{"unknown kind " + s.Kind})
+}
+
+// TypedContainer tells if a list / map spec has a typed form in the builder (scalar elements of a few kinds).
+func TypedContainer(s *Spec) bool {
+	scalar := func(x *Spec) bool {
+		return x != nil && (x.Kind == KInt || x.Kind == KString || x.Kind == KFloat || x.Kind == KBool)
+	}
+	switch s.Kind {
+	case KList:
+		return scalar(s.Items)
+	case KMap:
+		return s.Keys != nil && (s.Keys.Kind == KString || s.Keys.Kind == KInt) && scalar(s.Values)
+	}
+	return false
+}
+
+func buildTypedList(s *Spec) schema.Type {
+	switch s.Items.Kind {
+	case KInt:
+		return schema.NewTypedListSchema[int64](build(s.Items).(*schema.IntSchema), s.Min, s.Max)
+	case KString:
+		return schema.NewTypedListSchema[string](build(s.Items).(*schema.StringSchema), s.Min, s.Max)
+	case KFloat:
+		return schema.NewTypedListSchema[float64](build(s.Items).(*schema.FloatSchema), s.Min, s.Max)
+	case KBool:
+		return schema.NewTypedListSchema[bool](build(s.Items).(*schema.BoolSchema), s.Min, s.Max)
+	}
+	return nil
+}
+
+func typedMapFor[K comparable](keys schema.TypedType[K], s *Spec) schema.Type {
+	switch s.Values.Kind {
+	case KInt:
+		return schema.NewTypedMapSchema[K, int64](keys, build(s.Values).(*schema.IntSchema), s.Min, s.Max)
+	case KString:
+		return schema.NewTypedMapSchema[K, string](keys, build(s.Values).(*schema.StringSchema), s.Min, s.Max)
+	case KFloat:
+		return schema.NewTypedMapSchema[K, float64](keys, build(s.Values).(*schema.FloatSchema), s.Min, s.Max)
+	case KBool:
+		return schema.NewTypedMapSchema[K, bool](keys, build(s.Values).(*schema.BoolSchema), s.Min, s.Max)
+	}
+	return nil
+}
+
+func buildTypedMap(s *Spec) schema.Type {
+	switch s.Keys.Kind {
+	case KString:
+		return typedMapFor[string](build(s.Keys).(*schema.StringSchema), s)
+	case KInt:
+		return typedMapFor[int64](build(s.Keys).(*schema.IntSchema), s)
+	}
+	return nil
 }
 
 func buildProps(s *Spec) map[string]*schema.PropertySchema {
